@@ -157,17 +157,18 @@ class Dut2(Elaboratable):
 
     req: Required[Method]
 
-    def __init__(self):
+    def __init__(self, tagged=False):
         self.req = Method(i=[("x", 8)], o=[("y", 8)])
         self.go = Signal()
         self.execs = Signal(16)
         self.ret = Signal(8)
         self.arg = Signal(8)
+        self.tagged = tagged  # the argument includes a register that the call itself updates: it changes exactly at the executing clock edge
 
     def elaborate(self, platform):
         m = TModule()
         with Transaction().body(m, ready=self.go):
-            r = self.req(m, x=self.arg)
+            r = self.req(m, x=(self.arg + self.execs[:8])[:8] if self.tagged else self.arg)
             m.d.sync += self.execs.eq(self.execs + 1)
             m.d.sync += self.ret.eq(r.y)
         return m
@@ -175,15 +176,18 @@ class Dut2(Elaboratable):
 
 def run_mock(rec, rnd, case, cycles):
     with DependencyContext(DependencyManager()):
-        dut = Dut2()
+        tagged = rnd.random() < 0.5
+        dut = Dut2(tagged)
         circ = SimpleTestCircuit(dut)
         sim = PysimSimulator(circ, max_cycles=cycles + 50)
         effects, calls_log = [], []
+        if tagged:
+            rec.count("mock_histories_with_argument_changed_by_the_call_itself")
         delay = rnd.choice([0, 0, 1e-9, 3e-9, 2e-7])
         pen = rnd.choice([0.2, 0.6, 1.0])
         pgo = rnd.choice([0.3, 0.7, 1.0])
         mul, add = rnd.randrange(1, 8, 2), rnd.randrange(256)
-        case = dict(case, delay=delay, enable_probability=pen, go_probability=pgo)
+        case = dict(case, delay=delay, enable_probability=pen, go_probability=pgo, argument_includes_register_updated_by_the_call=tagged)
 
         def fn(x):
             y = (x * mul + add) & 255
@@ -215,10 +219,11 @@ def run_mock(rec, rnd, case, cycles):
                 await ctx.tick()
                 after = ctx.get(dut.execs)
                 if after != before:
-                    y = (a * mul + add) & 255
-                    calls_log.append((a, y))
+                    x_eff = (a + (before & 255)) & 255 if tagged else a
+                    y = (x_eff * mul + add) & 255
+                    calls_log.append((x_eff, y))
                     rec.check("mock:return_value_reaches_the_caller_in_the_same_cycle", ctx.get(dut.ret) == y, case=case,
-                              detail={"cycle": cyc, "arg": a, "latched": ctx.get(dut.ret), "expected": y})
+                              detail={"cycle": cyc, "arg": x_eff, "latched": ctx.get(dut.ret), "expected": y})
                     rec.count("mock_calls")
                     rec.count("helper_calls")
                 else:
